@@ -315,6 +315,48 @@ class StmtMixin:
             return [Out('fall', s)]
         raise Unsupported('del target')
 
+    def s_With(self, stmt, st, module):
+        # `with E as f: body` : f is bound to the context value (enter = identity); leaving the block is an opaque exit event.
+        # Exceptions in the body propagate after the same exit event (the managers used in glom -- open() -- do not swallow them).
+        if len(stmt.items) != 1:
+            raise Unsupported('with: several items')
+        item = stmt.items[0]
+        outs = []
+        for kind, s, v in self.eval(item.context_expr, st, module):
+            if kind != 'ok':
+                outs.append(Out('raise', s, v)); continue
+            s = s.fork()
+            if item.optional_vars is not None:
+                bound = self.assign(item.optional_vars, s, v, module)
+            else:
+                bound = [Out('fall', s)]
+            for b in bound:
+                if b.kind != 'fall':
+                    outs.append(b); continue
+                for o in self.exec_block(stmt.body, b.st, module):
+                    for k2, s2, r in self.prim(o.st, 'ctx_exit', [v], raises=False):
+                        outs.append(Out(o.kind, s2, o.val))
+        return outs
+
+    def s_Import(self, stmt, st, module):
+        # an import inside a function body: may fail with ImportError; binds the module name
+        outs = [Out('fall', st)]
+        for al in stmt.names:
+            nxt = []
+            for o in outs:
+                if o.kind != 'fall':
+                    nxt.append(o); continue
+                for k2, s2, r in self.prim(o.st, 'import!' + al.name, []):
+                    if k2 == 'ok':
+                        s2 = s2.fork()
+                        s2.env[al.asname or al.name.split('.')[0]] = SV('module', al.name)
+                        nxt.append(Out('fall', s2))
+                    else:
+                        s2.add(Z.subclass(Z.klass(r.v), self.cls_const('ImportError')))
+                        nxt.append(Out('raise', s2, r))
+            outs = nxt
+        return outs
+
     def s_If(self, stmt, st, module):
         outs = []
         for kind, s, c in self.cond(stmt.test, st, module):
